@@ -729,6 +729,21 @@ class Interp:
         if isinstance(f, ast.Attribute):
             obj = self.ev(f.value, env)
             m = f.attr
+            if isinstance(obj, list) and not kwargs:
+                if m == "append" and len(args) == 1:
+                    obj.append(args[0])
+                    return None
+                if m == "extend" and len(args) == 1:
+                    obj.extend(self.iterate(args[0], e))
+                    return None
+                if m == "clear" and not args:
+                    obj.clear()
+                    return None
+                if m == "pop" and len(args) <= 1 and all(isinstance(a_, int) for a_ in args):
+                    try:
+                        return obj.pop(*args)
+                    except IndexError:
+                        raise Raised("IndexError", e)
             if isinstance(obj, dict):
                 if m == "keys":
                     return _View(list(obj.keys()))
@@ -908,9 +923,26 @@ def bind_project(it, project, mod, g, depth=0):
             return
         if isinstance(node, ast.FunctionDef) and memo_only(node.decorator_list):
             g[name] = (lambda f_: lambda *a, **kw: it.call(f_, list(a), kw))(node)
-        elif isinstance(node, ast.ClassDef) and not node.decorator_list:
+        elif isinstance(node, ast.ClassDef) and (not node.decorator_list or [norm(d.func if isinstance(d, ast.Call) else d).split(".")[-1]
+                                                                             for d in node.decorator_list] == ["dataclass"]):
+            record = any(norm(b).split(".")[-1] == "NamedTuple" for b in node.bases) or bool(node.decorator_list)
+
             def make(*a, _c=node, **kw):
                 inst = TypeRef(f"<{_c.name} object>", attrs={})
+                if record and not any(isinstance(m, ast.FunctionDef) and m.name == "__init__" for m in _c.body):
+                    # a NamedTuple / dataclass: the annotated names are the fields, in order; defaults from the class body
+                    flds = [st for st in _c.body if isinstance(st, ast.AnnAssign) and isinstance(st.target, ast.Name)]
+                    names = [st.target.id for st in flds]
+                    if len(a) > len(names) or set(kw) - set(names):
+                        raise Raised("TypeError", _c)
+                    vals = dict(zip(names, a))
+                    vals.update(kw)
+                    for st in flds:
+                        if st.target.id not in vals:
+                            if st.value is None:
+                                raise Raised("TypeError", _c)
+                            vals[st.target.id] = it.ev(st.value, {})
+                    inst.attrs.update(vals)
                 props = {}
                 for m in _c.body:
                     if not isinstance(m, ast.FunctionDef):
